@@ -62,7 +62,7 @@ func (x *Exec) callCommon(fr *Frame, st *State, ins ssa.Instruction, cc *ssa.Cal
 		defer func() { x.oblige(fr, "cover", "after "+snippetOf(ins), st, tFalse, pos) }()
 	}
 	if cc.IsInvoke() {
-		record := fr == x.root && !fr.spec && x.vc.noName == 0
+		record := x.recordsCalls(fr) && x.vc.noName == 0
 		var argTerms []Term
 		if record {
 			argTerms = append([]Term{x.val(fr, st, cc.Value)}, x.args(fr, st, cc)...)
@@ -91,7 +91,7 @@ func (x *Exec) callCommon(fr *Frame, st *State, ins ssa.Instruction, cc *ssa.Cal
 		return
 	case *ssa.Function:
 		var argTerms []Term
-		record := fr == x.root && !fr.spec && !strings.HasPrefix(callee.Name(), "vs_") && x.vc.noName == 0
+		record := x.recordsCalls(fr) && !strings.HasPrefix(callee.Name(), "vs_") && x.vc.noName == 0
 		if record {
 			argTerms = x.args(fr, st, cc)
 		}
@@ -129,6 +129,23 @@ func (x *Exec) callCommon(fr *Frame, st *State, ins ssa.Instruction, cc *ssa.Cal
 	x.safety(fr, "nilfunc", cc.Value.Name(), st, not(eq(fv, intLit(0))), pos)
 	sig := cc.Signature()
 	x.havocCall(fr, st, ins, "dynamic call through "+cc.Value.Name(), sig, x.args(fr, st, cc), cc.Args, res)
+}
+
+// recordsCalls: the call history of a unit holds the calls made by the function under
+// verification itself and by its own function literals (deferred closures, callbacks it defines).
+func (x *Exec) recordsCalls(fr *Frame) bool {
+	if fr.spec || x.root == nil {
+		return false
+	}
+	if fr == x.root {
+		return true
+	}
+	for p := fr.fn.Parent(); p != nil; p = p.Parent() {
+		if p == x.root.fn {
+			return true
+		}
+	}
+	return false
 }
 
 func (x *Exec) closureCall(fr *Frame, st *State, ins ssa.Instruction, cc *ssa.CallCommon, c *closure, res ssa.Value) {
@@ -262,8 +279,8 @@ func (x *Exec) canInline(fn *ssa.Function) bool {
 		if n > 900 {
 			return false
 		}
-		if fn.Recover != nil {
-			return false
+		if fn.Recover != nil && callsRecover(fn) {
+			return false // a function that recovers from panics continues where our model ends the path
 		}
 		return true
 	}()
@@ -273,6 +290,25 @@ func (x *Exec) canInline(fn *ssa.Function) bool {
 		x.eng.inlineOK[fn] = 2
 	}
 	return ok
+}
+
+// callsRecover: the function or one of its function literals calls the builtin recover.
+func callsRecover(fn *ssa.Function) bool {
+	for _, b := range fn.Blocks {
+		for _, ins := range b.Instrs {
+			if c, ok := ins.(ssa.CallInstruction); ok {
+				if bi, ok := c.Common().Value.(*ssa.Builtin); ok && bi.Name() == "recover" {
+					return true
+				}
+			}
+		}
+	}
+	for _, af := range fn.AnonFuncs {
+		if callsRecover(af) {
+			return true
+		}
+	}
+	return false
 }
 
 func (x *Exec) inlineCall(fr *Frame, st *State, ins ssa.Instruction, callee *ssa.Function, clo *closure, args []Term, res ssa.Value) {
